@@ -319,12 +319,12 @@ func (vc *VC) havocMods(st *State, m *ModSet) {
 		sort.Strings(ks)
 		vc.havocProtect(st, nil, ks)
 	}
+	if !m.all {
+		vc.bumpNext(st)
+	}
 	for _, k := range m.keys() {
 		vc.registerKey(k)
 		vc.havocHeap(st, k, "", nil)
-	}
-	if !m.all {
-		vc.bumpNext(st)
 	}
 }
 
